@@ -11,9 +11,9 @@ import os
 from common import *
 import engine
 
-RTYPE = {"i": "int32", "S": "S", "Gi": "G[int32]"}
-RVAL = {"i": "7", "S": "S { v: 1 }", "Gi": "G { v: 1 }"}
-PATH = {"S": "S", "Gi": "G"}
+RTYPE = {"i": "int32", "str": "string", "S": "S", "E": "E", "Gi": "G[int32]"}
+RVAL = {"i": "7", "str": "\"s\"", "S": "S { v: 1 }", "E": "E::K(1)", "Gi": "G { v: 1 }"}
+PATH = {"S": "S", "E": "E", "Gi": "G"}
 
 
 def form_id(f):
@@ -31,7 +31,7 @@ def config_id(k):
 
 def prelude(k):
     r, decl, impl, inh = k
-    out = ["struct S { v: int32 }", "struct G[T] { v: T }", "struct Other { v: int32 }"]
+    out = ["struct S { v: int32 }", "enum E { K(int32), Z }", "struct G[T] { v: T }", "struct Other { v: int32 }"]
     for t in ("A", "B"):
         meth = "m" if t in decl else "k"
         out.append(f"trait {t} {{ fn {meth}(Self) -> string; }}")
@@ -41,6 +41,8 @@ def prelude(k):
     for key in inh:
         if key == "exact@S":
             out.append('impl S { fn m(self: S) -> string { "exact@S" } }')
+        elif key == "exact@E":
+            out.append('impl E { fn m(self: E) -> string { "exact@E" } }')
         elif key == "exact@Gi":
             out.append('impl G[int32] { fn m(self: G[int32]) -> string { "exact@Gi" } }')
         elif key == "exact@Gb":
@@ -97,7 +99,7 @@ def run(rep, tier):
     if not tlc_ok(re_, "Resolve_emit"):
         rep.violation(f"model:Resolve_emit:{re_.violated}", {"trace": re_.trace[-1:]})
     lines = re_.json_prints("RESOLVE")
-    if len(lines) != re_.distinct or len(lines) < 2000:
+    if len(lines) != re_.distinct or len(lines) < 3000:
         raise ToolError(f"Resolve: {len(lines)} printed answers for {re_.distinct} states")
     by_cfg = {}
     for ln in lines:
@@ -168,6 +170,6 @@ def run(rep, tier):
     rep.coverage["resolve_forms_run"] = sum(len(c["expect"]) for c in accs)
     rep.coverage["resolve_refused_forms_refused_by_compiler"] = refused
     rep.coverage["resolve_dyn_forms_on_generic_instance_left_to_open_finding"] = skipped_dyn_generic
-    if agree < 100 or refused < 800:
+    if agree < 200 or refused < 1500:
         if not rep.violations:
             raise ToolError(f"vacuity: Resolve binding compared {agree} accepting programs and {refused} refusals")
